@@ -1,13 +1,463 @@
-(* Cache/CacheProofs.v -- placeholder, being written *)
-From RV Require Import Base.Prelude Name.NameModel Name.NameProofs Wire.WireTypes Cache.CacheModel Cache.CacheSpec.
+(* Cache/CacheProofs.v -- the main theorems about the cache model (C05, C15):
+   the invariant holds initially and is preserved by every operation, so every history
+   runs to completion without Panic / OutOfFuel ([run_total]); each operation refines
+   the abstract cache of CacheSpec ([step_refines]); the corollaries quoted in
+   Properties/C05.v and Properties/C15.v. *)
+From Coq Require Import Permutation.
+From RV Require Import Base.Prelude Name.NameModel Name.NameProofs Wire.WireTypes
+  Cache.CacheFacts Cache.CacheModel Cache.CacheSpec Cache.CacheInsert Cache.CacheCount Cache.CachePrune.
 
 Lemma ttl0_not_stored_step c now r : rr_ttl r = 0 -> shared_insert c now r = Ok c.
 Proof. intro H. unfold shared_insert. rewrite H. reflexivity. Qed.
 
-Lemma prune_reports_current tb c now c' r : prune tb c now = Ok (c', r) -> pr_current r = c_size c'.
+Lemma inv_init d : Inv (with_desired_size d).
+Proof.
+  constructor; cbn; try constructor; try constructor; try reflexivity.
+Qed.
+
+Section Tie4.
+Variable tb : tiebreak.
+Hypothesis tb_ok : tie_ok tb.
+
+Lemma prune_reports_current c now c' r : prune tb c now = Ok (c', r) -> pr_current r = c_size c'.
 Proof.
   unfold prune, prune_fuel. intro H.
   destruct (remove_expired tb (expire_fuel c) c now 0) as [[c1 n1]| | |]; cbn [bind] in H; try discriminate.
   destruct (lru_loop tb (lru_fuel c1) c1 0) as [[c2 n2]| | |]; cbn [bind] in H; try discriminate.
   inversion H; subst. reflexivity.
+Qed.
+
+(* every operation, from a state satisfying the invariant, completes (no Panic site is
+   reached, the fuel suffices) and re-establishes the invariant *)
+Lemma step_inv c now o :
+  Inv c -> exists c' now' x, step tb c now o = Ok (c', now', x) /\ Inv c' /\ c_desired c' = c_desired c.
+Proof.
+  intro HI. destruct o as [r|rs|name qt|name qt| |dt]; cbn [step].
+  - destruct (shared_insert_ok c now r HI) as (c' & -> & I & _ & _ & D). cbn [bind]. eauto 8.
+  - destruct (shared_insert_all_ok rs c now HI) as (c' & -> & I & _ & _ & D). cbn [bind]. eauto 8.
+  - destruct (get c now name qt) as [c' rrs] eqn:E. destruct (get_ok _ _ _ _ _ _ HI E) as (I & _ & _ & _ & _ & D & _). eauto 8.
+  - destruct (get_raw c now name qt) as [c' rrs] eqn:E. destruct (get_raw_ok _ _ _ _ _ _ HI E) as (I & _ & _ & _ & _ & D & _). eauto 8.
+  - destruct (prune_ok tb tb_ok c now HI) as (c1 & c' & rep & evs & -> & _ & I & _ & D & _). cbn [bind]. eauto 8.
+  - eauto 8.
+Qed.
+
+Lemma run_total ops : forall c now,
+  Inv c -> exists c' now' outs, run tb ops c now = Ok (c', now', outs) /\ Inv c' /\
+                                c_desired c' = c_desired c /\ length outs = length ops.
+Proof.
+  induction ops as [|o ops IH]; intros c now HI; cbn [run].
+  - exists c, now, []. auto.
+  - destruct (step_inv c now o HI) as (c1 & now1 & x & -> & I1 & D1). cbn [bind].
+    destruct (IH c1 now1 I1) as (c2 & now2 & outs & -> & I2 & D2 & L2). cbn [bind].
+    exists c2, now2, (x :: outs). split; [reflexivity|]. split; [exact I2|]. split; [congruence|]. cbn [length]. lia.
+Qed.
+
+(* the invariant holds after every history of a new cache *)
+Theorem inv_after_history desired ops c now outs :
+  run tb ops (with_desired_size desired) 0 = Ok (c, now, outs) -> Inv c /\ c_desired c = desired.
+Proof.
+  intro H. destruct (run_total ops (with_desired_size desired) 0 (inv_init desired)) as (c' & now' & outs' & H' & I & D & _).
+  rewrite H in H'. inversion H'; subst. auto.
+Qed.
+
+Theorem history_never_panics desired ops :
+  exists c now outs, run tb ops (with_desired_size desired) 0 = Ok (c, now, outs).
+Proof.
+  destruct (run_total ops (with_desired_size desired) 0 (inv_init desired)) as (c' & now' & outs' & H' & _). eauto.
+Qed.
+
+(* ---- histories ---- *)
+Lemma run_prefix ops : forall c0 now0 c now outs,
+  run tb ops c0 now0 = Ok (c, now, outs) ->
+  forall i o, nth_error ops i = Some o ->
+  exists ci nowi ci' nowi' x,
+    run tb (firstn i ops) c0 now0 = Ok (ci, nowi, firstn i outs) /\
+    step tb ci nowi o = Ok (ci', nowi', x) /\ nth_error outs i = Some x.
+Proof.
+  induction ops as [|o0 ops IH]; intros c0 now0 c now outs H i o Hi; [destruct i; discriminate|].
+  cbn [run] in H.
+  destruct (step tb c0 now0 o0) as [[[c1 now1] x1]| | |] eqn:Hs; cbn [bind] in H; try discriminate.
+  destruct (run tb ops c1 now1) as [[[c2 now2] outs2]| | |] eqn:Hr; cbn [bind] in H; try discriminate.
+  inversion H; subst. destruct i as [|i]; cbn [nth_error firstn] in *.
+  - inversion Hi; subst. exists c0, now0, c1, now1, x1. auto.
+  - destruct (IH _ _ _ _ _ Hr i o Hi) as (ci & nowi & ci' & nowi' & x & R1 & R2 & R3).
+    exists ci, nowi, ci', nowi', x. cbn [run]. rewrite Hs. cbn [bind]. rewrite R1. cbn [bind]. auto.
+Qed.
+
+Lemma hist_snoc key h o : hist key (h ++ [o]) = hstep key (hist key h) o.
+Proof. unfold hist. rewrite fold_left_app. reflexivity. Qed.
+
+Lemma hist_time key h : fst (hist key h) = time_of h.
+Proof.
+  unfold time_of. induction h as [|o h IH] using rev_ind; [reflexivity|].
+  rewrite !hist_snoc. destruct o; cbn [hstep fst]; rewrite ?IH; reflexivity.
+Qed.
+
+(* every cached record carries the expiry instant of its last effective insertion *)
+Definition stamped (m : amap) (acc : akey -> option (N * N)) : Prop :=
+  forall k e, m k = Some e ->
+    exists t0 T, acc k = Some (t0, T) /\ e = t0 + T * NS_PER_S /\ 0 < T.
+
+Lemma stamped_insert m acc now r :
+  stamped m acc -> stamped (a_insert m now r) (fun k => ins1 k now (acc k) r).
+Proof.
+  intros H k e. unfold a_insert, ins1. destruct (N.ltb_spec 0 (rr_ttl r)) as [Hpos|Hz]; cbn [andb]; [|apply H].
+  destruct (key_eqb (rr_key r) k); [|apply H].
+  intro Hx; inversion Hx; subst. exists now, (rr_ttl r). unfold expiry_of. auto.
+Qed.
+
+Lemma stamped_insert_all now rs : forall m acc,
+  stamped m acc -> stamped (a_insert_all m now rs) (fun k => fold_left (ins1 k now) rs (acc k)).
+Proof.
+  induction rs as [|r rs IH]; intros m acc H; cbn [a_insert_all fold_left]; [exact H|].
+  apply (IH _ (fun k => ins1 k now (acc k) r)). apply stamped_insert, H.
+Qed.
+
+Lemma stamped_ext m m' acc : (forall k, m' k = m k) -> stamped m acc -> stamped m' acc.
+Proof. intros He H k e Hk. rewrite He in Hk. apply H, Hk. Qed.
+
+Definition hist_inv (h : list op) (c : cache) (now : N) : Prop :=
+  Inv c /\ now = time_of h /\ stamped (abs_map c) (last_insert h).
+
+Lemma step_hist h c now o c' now' x :
+  hist_inv h c now -> step tb c now o = Ok (c', now', x) -> hist_inv (h ++ [o]) c' now'.
+Proof.
+  intros (HI & Hnow & Hst) Hs.
+  assert (Htime : forall key, fst (hist key h) = now) by (intro key; rewrite hist_time; auto).
+  unfold hist_inv, last_insert. destruct o as [r|rs|name qt|name qt| |dt]; cbn [step] in Hs.
+  - destruct (shared_insert_ok c now r HI) as (c1 & E & I & M & _). rewrite E in Hs. cbn [bind] in Hs.
+    inversion Hs; subst c1 now' x. split; [exact I|]. split.
+    + rewrite <- hist_time with (key := (root_domain, 0, RD_A 0)), hist_snoc. cbn [hstep fst]. symmetry; apply Htime.
+    + apply (stamped_ext _ _ _ M). intros k e Hk.
+      destruct (stamped_insert _ _ now r Hst k e Hk) as (t0 & T & A1 & A2).
+      exists t0, T. rewrite hist_snoc. cbn [hstep snd]. rewrite Htime. auto.
+  - destruct (shared_insert_all_ok rs c now HI) as (c1 & E & I & M & _). rewrite E in Hs. cbn [bind] in Hs.
+    inversion Hs; subst c1 now' x. split; [exact I|]. split.
+    + rewrite <- hist_time with (key := (root_domain, 0, RD_A 0)), hist_snoc. cbn [hstep fst]. symmetry; apply Htime.
+    + apply (stamped_ext _ _ _ M). intros k e Hk.
+      destruct (stamped_insert_all now rs _ _ Hst k e Hk) as (t0 & T & A1 & A2).
+      exists t0, T. rewrite hist_snoc. cbn [hstep snd]. rewrite Htime. auto.
+  - destruct (get c now name qt) as [c1 rrs] eqn:E. inversion Hs; subst c1 now' x.
+    destruct (get_ok _ _ _ _ _ _ HI E) as (I & M & _). split; [exact I|]. split.
+    + rewrite <- hist_time with (key := (root_domain, 0, RD_A 0)), hist_snoc. cbn [hstep]. symmetry; apply Htime.
+    + apply (stamped_ext _ _ _ M). intros k e Hk. destruct (Hst k e Hk) as (t0 & T & A1 & A2).
+      exists t0, T. rewrite hist_snoc. cbn [hstep]. auto.
+  - destruct (get_raw c now name qt) as [c1 rrs] eqn:E. inversion Hs; subst c1 now' x.
+    destruct (get_raw_ok _ _ _ _ _ _ HI E) as (I & M & _). split; [exact I|]. split.
+    + rewrite <- hist_time with (key := (root_domain, 0, RD_A 0)), hist_snoc. cbn [hstep]. symmetry; apply Htime.
+    + apply (stamped_ext _ _ _ M). intros k e Hk. destruct (Hst k e Hk) as (t0 & T & A1 & A2).
+      exists t0, T. rewrite hist_snoc. cbn [hstep]. auto.
+  - destruct (prune_ok tb tb_ok c now HI) as (c1 & c2 & rep & evs & E & _ & I & _ & _ & _ & _ & _ & _ & M1 & _ & M2 & _).
+    rewrite E in Hs. cbn [bind] in Hs. inversion Hs; subst c2 now' x. split; [exact I|]. split.
+    + rewrite <- hist_time with (key := (root_domain, 0, RD_A 0)), hist_snoc. cbn [hstep]. symmetry; apply Htime.
+    + intros k e Hk. rewrite M2 in Hk. destruct (evicted evs (key_name k)); [discriminate|].
+      rewrite M1 in Hk. unfold live_at, restrict in Hk. destruct (abs_map c k) as [e0|] eqn:E0; [|discriminate].
+      destruct (now <? e0); [|discriminate]. inversion Hk; subst e0.
+      destruct (Hst k e E0) as (t0 & T & A1 & A2). exists t0, T. rewrite hist_snoc. cbn [hstep]. auto.
+  - inversion Hs; subst c' now' x. split; [exact HI|]. split.
+    + rewrite <- hist_time with (key := (root_domain, 0, RD_A 0)), hist_snoc. cbn [hstep fst]. rewrite Htime. reflexivity.
+    + intros k e Hk. destruct (Hst k e Hk) as (t0 & T & A1 & A2). exists t0, T. rewrite hist_snoc. cbn [hstep snd]. auto.
+Qed.
+
+Lemma run_hist ops : forall h c now c' now' outs,
+  hist_inv h c now -> run tb ops c now = Ok (c', now', outs) -> hist_inv (h ++ ops) c' now'.
+Proof.
+  induction ops as [|o ops IH]; intros h c now c' now' outs HP H; cbn [run] in H.
+  - inversion H; subst. rewrite app_nil_r. exact HP.
+  - destruct (step tb c now o) as [[[c1 now1] x1]| | |] eqn:Hs; cbn [bind] in H; try discriminate.
+    destruct (run tb ops c1 now1) as [[[c2 now2] outs2]| | |] eqn:Hr; cbn [bind] in H; try discriminate.
+    inversion H; subst. replace (h ++ o :: ops) with ((h ++ [o]) ++ ops) by (rewrite <- app_assoc; reflexivity).
+    eapply IH; [|exact Hr]. eapply step_hist; eassumption.
+Qed.
+
+Lemma hist_inv_init desired : hist_inv [] (with_desired_size desired) 0.
+Proof. split; [apply inv_init|]. split; [reflexivity|]. intros k e H. discriminate. Qed.
+
+Lemma remaining_bound e now : remaining e now * NS_PER_S <= e - now.
+Proof.
+  unfold remaining. assert (N.min ((e - now) / NS_PER_S) U32_MAX <= (e - now) / NS_PER_S) by lia.
+  pose proof (N.mul_div_le (e - now) NS_PER_S ltac:(unfold NS_PER_S; lia)). nia.
+Qed.
+
+(* C05, the main statement: a record returned by a lookup at step i of a history was
+   last inserted (TTL > 0) at t0 with TTL T, the clock now reads less than t0 + T, and
+   the TTL reported does not exceed the time left *)
+Theorem served_record_is_live desired ops c now outs i name qt rrs r :
+  run tb ops (with_desired_size desired) 0 = Ok (c, now, outs) ->
+  nth_error ops i = Some (Get name qt) -> nth_error outs i = Some (ORRs rrs) -> In r rrs ->
+  exists t0 T,
+    last_insert (firstn i ops) (rr_key r) = Some (t0, T) /\
+    time_of (firstn i ops) < t0 + T * NS_PER_S /\
+    rr_ttl r * NS_PER_S <= t0 + T * NS_PER_S - time_of (firstn i ops) /\
+    1 <= rr_ttl r /\ rr_name r = name /\ rr_class r = RC_IN.
+Proof.
+  intros Hrun Hop Hout Hin.
+  destruct (run_prefix _ _ _ _ _ _ Hrun i _ Hop) as (ci & nowi & ci' & nowi' & x & R1 & R2 & R3).
+  rewrite Hout in R3. inversion R3; subst x.
+  pose proof (run_hist _ _ _ _ _ _ _ (hist_inv_init desired) R1) as (HI & Hnow & Hst). cbn [app] in *.
+  cbn [step] in R2. destruct (get ci nowi name qt) as [c1 rrs1] eqn:E. inversion R2; subst.
+  destruct (get_ok _ _ _ _ _ _ HI E) as (_ & _ & [_ A] & _).
+  apply A in Hin. destruct Hin as (A1 & A2 & _ & e & A3 & A4 & A5). specialize (A5 eq_refl).
+  destruct (Hst _ _ A3) as (t0 & T & B1 & B2 & B3). exists t0, T.
+  pose proof (remaining_bound e (time_of (firstn i ops))) as Hb. rewrite <- A4 in Hb.
+  assert (Hns : NS_PER_S = 1000000000) by reflexivity.
+  split; [exact B1|]. subst e. split; [nia|]. split; [exact Hb|]. auto.
+Qed.
+
+(* the same for the raw getter, which may also return records whose time is up, but
+   then reports TTL 0 *)
+Theorem raw_record_ttl_bound desired ops c now outs i name qt rrs r :
+  run tb ops (with_desired_size desired) 0 = Ok (c, now, outs) ->
+  nth_error ops i = Some (GetRaw name qt) -> nth_error outs i = Some (ORRs rrs) -> In r rrs ->
+  exists t0 T,
+    last_insert (firstn i ops) (rr_key r) = Some (t0, T) /\
+    rr_ttl r * NS_PER_S <= t0 + T * NS_PER_S - time_of (firstn i ops) /\
+    rr_name r = name /\ rr_class r = RC_IN.
+Proof.
+  intros Hrun Hop Hout Hin.
+  destruct (run_prefix _ _ _ _ _ _ Hrun i _ Hop) as (ci & nowi & ci' & nowi' & x & R1 & R2 & R3).
+  rewrite Hout in R3. inversion R3; subst x.
+  pose proof (run_hist _ _ _ _ _ _ _ (hist_inv_init desired) R1) as (HI & Hnow & Hst). cbn [app] in *.
+  cbn [step] in R2. destruct (get_raw ci nowi name qt) as [c1 rrs1] eqn:E. inversion R2; subst.
+  destruct (get_raw_ok _ _ _ _ _ _ HI E) as (_ & _ & [_ A] & _).
+  apply A in Hin. destruct Hin as (A1 & A2 & _ & e & A3 & A4 & _).
+  destruct (Hst _ _ A3) as (t0 & T & B1 & B2 & B3). exists t0, T.
+  pose proof (remaining_bound e (time_of (firstn i ops))) as Hb. rewrite <- A4 in Hb.
+  split; [exact B1|]. subst e. auto.
+Qed.
+
+(* ---- prune against the abstract cache ---- *)
+Lemma minus_eq m now ev k :
+  (if evicted ev (key_name k) then None else live_at now m k) = live_minus m now ev k.
+Proof.
+  unfold live_at, live_minus, restrict, evicted. destruct (m k) as [e|]; [|destruct (existsb _ ev); reflexivity].
+  destruct (now <? e); destruct (existsb _ ev); reflexivity.
+Qed.
+
+Lemma prune_refines c now :
+  Inv c ->
+  exists c' rep evs, prune tb c now = Ok (c', rep) /\ Inv c' /\ c_desired c' = c_desired c /\
+    a_prune (abs_map c) (abs_lru c) now (c_desired c) (abs_map c') (abs_lru c') evs /\
+    report_ok (abs_map c) (abs_map c') now (c_desired c) evs rep.
+Proof.
+  intro HI.
+  destruct (prune_ok tb tb_ok c now HI)
+    as (c1 & c' & rep & evs & E & I1 & I' & D1 & D' & Hrep & L1 & L2 & L3 & M1 & U1 & M2 & U2 & O).
+  exists c', rep, evs. split; [exact E|]. split; [exact I'|]. split; [exact D'|].
+  assert (Hmap : forall k, abs_map c' k = live_minus (abs_map c) now evs k).
+  { intro k. rewrite M2, M1. apply minus_eq. }
+  assert (Hmid : forall ev1 cm, (forall key, abs_map cm key = if evicted ev1 (key_name key) then None else abs_map c1 key) ->
+                                forall k, abs_map cm k = live_minus (abs_map c) now ev1 k).
+  { intros ev1 cm Hcm k. rewrite Hcm, M1. apply minus_eq. }
+  pose proof (count_is_distinct_entries c HI) as C0.
+  pose proof (count_is_distinct_entries c1 I1) as C1.
+  pose proof (count_is_distinct_entries c' I') as C'.
+  split.
+  - constructor.
+    + exact Hmap.
+    + (* no name is evicted twice *)
+      clear -O. induction evs as [|n evs IH] using rev_ind; [constructor|].
+      assert (Hn : ~ In n evs).
+      { destruct (O evs n [] eq_refl) as (cm & _ & _ & J & _ & tk & Hk & _).
+        rewrite J in Hk. intro Hin. unfold evicted in Hk.
+        assert (Hx : existsb (dname_eqb n) evs = true).
+        { apply existsb_exists. exists n. split; [exact Hin | apply dname_eqb_eq; reflexivity]. }
+        rewrite Hx in Hk. discriminate. }
+      assert (Hnd : NoDup evs).
+      { apply IH. intros ev1 n0 ev2 Hs. apply (O ev1 n0 (ev2 ++ [n])). rewrite Hs, <- app_assoc. reflexivity. }
+      apply (Permutation_NoDup (l := n :: evs)); [apply Permutation_cons_append|]. constructor; assumption.
+    + intros n Hn. destruct (abs_lru c' n) as [t|] eqn:Et.
+      * rewrite U2 in Et. destruct (evicted evs n); [discriminate|]. symmetry. apply U1, Et.
+      * exfalso. exact (entry_has_lru c' n Hn Et).
+    + intros n Hn. destruct (abs_lru c' n) as [t|] eqn:Et; [|reflexivity].
+      exfalso. apply Hn. eapply lru_has_entry; eassumption.
+    + intros ev1 n ev2 Hs. destruct (O ev1 n ev2 Hs) as (cm & Im & Jm & Ju & Hov & tk & Hk & Hmin).
+      pose proof (Hmid ev1 cm Jm) as Hcm.
+      split; [|split].
+      * eapply has_entry_ext; [|eapply lru_has_entry; [exact Im | exact Hk]].
+        intro k. symmetry. apply Hcm.
+      * intros n1 Hc. pose proof (count_is_distinct_entries cm Im) as Cm.
+        assert (n1 = c_size cm) by (eapply card_unique; [exact Hc | eapply card_ext; [|exact Cm]; intro k; symmetry; apply Hcm]).
+        lia.
+      * intros n' tn tn' Hn' Hl Hl'.
+        assert (Hen : has_entry (abs_map cm) n') by (eapply has_entry_ext; [|exact Hn']; exact Hcm).
+        destruct (abs_lru cm n') as [t'|] eqn:Et'; [|exfalso; exact (entry_has_lru cm n' Hen Et')].
+        pose proof (Hmin n' t' Et') as Hle.
+        rewrite Ju in Hk, Et'. destruct (evicted ev1 n); [discriminate|]. destruct (evicted ev1 n'); [discriminate|].
+        apply U1 in Hk. apply U1 in Et'. congruence.
+    + intros n1 Hc. assert (n1 = c_size c') by (eapply card_unique; eassumption). lia.
+  - subst rep. constructor; cbn [pr_overflowed pr_current pr_expired pr_pruned].
+    + intros n Hc. assert (n = c_size c) by (eapply card_unique; eassumption). subst n. reflexivity.
+    + exact C'.
+    + destruct (card_restrict _ _ (fun _ e => now <? e) C0) as (n1 & K1 & K2 & _).
+      assert (n1 = c_size c1) by (eapply card_unique; [exact K1 | eapply card_ext; [|exact C1]; intro k; symmetry; apply M1]).
+      subst n1. eapply card_ext; [|exact K2]. intro k. unfold restrict. destruct (abs_map c k) as [e|]; [|reflexivity].
+      destruct (N.ltb_spec now e); destruct (N.leb_spec e now); cbn [negb]; try reflexivity; lia.
+    + destruct (card_restrict _ _ (fun k _ => negb (evicted evs (key_name k))) C1) as (n1 & K1 & K2 & _).
+      assert (n1 = c_size c').
+      { eapply card_unique; [exact K1 | eapply card_ext; [|exact C']]. intro k. rewrite M2. unfold restrict.
+        destruct (evicted evs (key_name k)); cbn [negb]; destruct (abs_map c1 k); reflexivity. }
+      subst n1. eapply card_ext; [|exact K2]. intro k. unfold restrict. rewrite M1. unfold live_at, restrict, evicted.
+      destruct (abs_map c k) as [e|]; [|reflexivity]. destruct (now <? e); cbn [andb]; [|reflexivity].
+      rewrite negb_involutive. reflexivity.
+Qed.
+
+(* every operation refines the abstract cache (and re-establishes the invariant) *)
+Theorem step_refines c now o :
+  Inv c ->
+  exists c' now' x, step tb c now o = Ok (c', now', x) /\ Inv c' /\ c_desired c' = c_desired c /\
+    abs_step (abs_map c) (abs_lru c) now (c_desired c) o (abs_map c') (abs_lru c') now' x.
+Proof.
+  intro HI. destruct o as [r|rs|name qt|name qt| |dt]; cbn [step abs_step].
+  - destruct (shared_insert_ok c now r HI) as (c' & -> & I & M & L & D). cbn [bind].
+    exists c', now, OUnit. auto 8.
+  - destruct (shared_insert_all_ok rs c now HI) as (c' & -> & I & M & L & D). cbn [bind].
+    exists c', now, OUnit. auto 8.
+  - destruct (get c now name qt) as [c' rrs] eqn:E.
+    destruct (get_ok _ _ _ _ _ _ HI E) as (I & M & A & L & _ & D & _).
+    exists c', now, (ORRs rrs). split; [reflexivity|]. split; [exact I|]. split; [exact D|].
+    split; [exact M|]. split; [reflexivity|]. exists rrs. auto.
+  - destruct (get_raw c now name qt) as [c' rrs] eqn:E.
+    destruct (get_raw_ok _ _ _ _ _ _ HI E) as (I & M & A & L & _ & D & _).
+    exists c', now, (ORRs rrs). split; [reflexivity|]. split; [exact I|]. split; [exact D|].
+    split; [exact M|]. split; [reflexivity|]. exists rrs. auto.
+  - destruct (prune_refines c now HI) as (c' & rep & evs & -> & I & D & A & R). cbn [bind].
+    exists c', now, (OPrune rep). split; [reflexivity|]. split; [exact I|]. split; [exact D|].
+    split; [reflexivity|]. exists rep, evs. auto.
+  - exists c, (now + dt), OUnit. auto 8.
+Qed.
+
+(* ---- corollaries at the level of one state ---- *)
+Theorem prune_no_expired_left c now c' rep :
+  Inv c -> prune tb c now = Ok (c', rep) -> forall k e, abs_map c' k = Some e -> now < e.
+Proof.
+  intros HI H k e Hk. destruct (prune_refines c now HI) as (c2 & rep2 & evs & E & _ & _ & A & _).
+  rewrite H in E. inversion E; subst c2 rep2. rewrite (ap_map _ _ _ _ _ _ _ A) in Hk.
+  unfold live_minus, restrict in Hk. destruct (abs_map c k) as [e0|]; [|discriminate].
+  destruct (N.ltb_spec now e0); cbn [andb] in Hk; [|discriminate].
+  destruct (negb _); [|discriminate]. inversion Hk; subst. assumption.
+Qed.
+
+Theorem prune_at_most_desired c now c' rep :
+  Inv c -> prune tb c now = Ok (c', rep) ->
+  c_size c' <= c_desired c /\ forall n, card (abs_map c') n -> n <= c_desired c.
+Proof.
+  intros HI H. destruct (prune_refines c now HI) as (c2 & rep2 & evs & E & I & _ & A & _).
+  rewrite H in E. inversion E; subst c2 rep2. pose proof (ap_bound _ _ _ _ _ _ _ A) as Hb.
+  split; [apply Hb, count_is_distinct_entries, I | exact Hb].
+Qed.
+
+Theorem prune_terminates c now : Inv c -> exists c' rep, prune tb c now = Ok (c', rep) /\ Inv c'.
+Proof. intro HI. destruct (prune_refines c now HI) as (c' & rep & _ & E & I & _). eauto. Qed.
+
+(* re-inserting a cached record restarts its lifetime and does not add an entry *)
+Theorem reinsert_restarts c now r c' :
+  Inv c -> 0 < rr_ttl r -> shared_insert c now r = Ok c' ->
+  abs_map c' (rr_key r) = Some (now + rr_ttl r * NS_PER_S) /\
+  (forall k, k <> rr_key r -> abs_map c' k = abs_map c k) /\
+  (abs_map c (rr_key r) <> None -> c_size c' = c_size c).
+Proof.
+  intros HI Hpos H. destruct (shared_insert_ok c now r HI) as (c2 & E & I & M & _).
+  rewrite H in E. inversion E; subst c2.
+  assert (Hp : (0 <? rr_ttl r) = true) by (apply N.ltb_lt, Hpos).
+  split; [|split].
+  - rewrite M. unfold a_insert. rewrite Hp, (proj2 (key_eqb_eq _ _) eq_refl). reflexivity.
+  - intros k Hk. rewrite M. unfold a_insert. rewrite Hp. cbn [andb].
+    destruct (key_eqb (rr_key r) k) eqn:Ek; [apply key_eqb_eq in Ek; congruence | reflexivity].
+  - intro Hin. symmetry. eapply card_same_dom; [|apply count_is_distinct_entries, HI | apply count_is_distinct_entries, I].
+    intro k. rewrite M. unfold a_insert. rewrite Hp. cbn [andb].
+    destruct (key_eqb (rr_key r) k) eqn:Ek; [|tauto]. apply key_eqb_eq in Ek. subst k.
+    split; [intro Hn; contradiction | discriminate].
+Qed.
+
+Theorem live_record_is_returned c now name t d e qt c' rrs :
+  Inv c -> abs_map c (name, t, d) = Some e -> NS_PER_S <= e - now -> cache_qmatch qt t ->
+  get c now name qt = (c', rrs) ->
+  In {| rr_name := name; rr_type := t; rr_class := RC_IN; rr_ttl := remaining e now; rr_data := d |} rrs /\
+  NoDup (map rr_key rrs).
+Proof.
+  intros HI Ha Hrem Hq Hg. destruct (get_ok _ _ _ _ _ _ HI Hg) as (_ & _ & [N1 A] & _).
+  split; [|exact N1]. apply A. cbn [rr_name rr_class rr_type rr_ttl]. split; [reflexivity|]. split; [reflexivity|].
+  split; [exact Hq|]. exists e. unfold rr_key. cbn [rr_name rr_type rr_data]. split; [exact Ha|]. split; [reflexivity|].
+  intros _. unfold remaining.
+  assert (1 <= (e - now) / NS_PER_S).
+  { apply N.div_le_lower_bound; unfold NS_PER_S in *; lia. }
+  unfold U32_MAX. lia.
+Qed.
+
+(* a record in its last (incomplete) second is withheld by Cache::get: its TTL would read 0 *)
+Theorem last_second_withheld c now name qt c' rrs r e :
+  Inv c -> get c now name qt = (c', rrs) -> abs_map c (rr_key r) = Some e -> e - now < NS_PER_S -> ~ In r rrs.
+Proof.
+  intros HI Hg Ha Hlt Hin. destruct (get_ok _ _ _ _ _ _ HI Hg) as (_ & _ & [_ A] & _).
+  apply A in Hin. destruct Hin as (_ & _ & _ & e' & Ha' & Httl & Hl). specialize (Hl eq_refl).
+  rewrite Ha in Ha'. inversion Ha'; subst e'. unfold remaining in Httl.
+  rewrite (N.div_small (e - now) NS_PER_S Hlt) in Httl. unfold U32_MAX in Httl. lia.
+Qed.
+
+(* ---- corollaries over histories ---- *)
+Theorem stored_record_stamp desired ops c now outs k e :
+  run tb ops (with_desired_size desired) 0 = Ok (c, now, outs) -> abs_map c k = Some e ->
+  exists t0 T, last_insert ops k = Some (t0, T) /\ 0 < T /\ e = t0 + T * NS_PER_S.
+Proof.
+  intros Hrun Ha. pose proof (run_hist _ _ _ _ _ _ _ (hist_inv_init desired) Hrun) as (_ & _ & Hst).
+  cbn [app] in Hst. destruct (Hst _ _ Ha) as (t0 & T & H1 & H2 & H3). eauto.
+Qed.
+
+(* C15 over histories: whatever came before, a prune at step i is an abstract prune of the
+   state reached by the first i operations, and reports the true numbers *)
+Theorem prune_in_history desired ops c now outs i rep :
+  run tb ops (with_desired_size desired) 0 = Ok (c, now, outs) ->
+  nth_error ops i = Some Prune -> nth_error outs i = Some (OPrune rep) ->
+  exists ci ci' evs,
+    run tb (firstn i ops) (with_desired_size desired) 0 = Ok (ci, time_of (firstn i ops), firstn i outs) /\
+    prune tb ci (time_of (firstn i ops)) = Ok (ci', rep) /\ Inv ci /\ Inv ci' /\
+    a_prune (abs_map ci) (abs_lru ci) (time_of (firstn i ops)) desired (abs_map ci') (abs_lru ci') evs /\
+    report_ok (abs_map ci) (abs_map ci') (time_of (firstn i ops)) desired evs rep /\
+    (forall k e, abs_map ci' k = Some e -> time_of (firstn i ops) < e) /\
+    c_size ci' <= desired /\ card (abs_map ci') (c_size ci').
+Proof.
+  intros Hrun Hop Hout.
+  destruct (run_prefix _ _ _ _ _ _ Hrun i _ Hop) as (ci & nowi & ci' & nowi' & x & R1 & R2 & R3).
+  rewrite Hout in R3. inversion R3; subst x.
+  pose proof (run_hist _ _ _ _ _ _ _ (hist_inv_init desired) R1) as (HI & Hnow & _). cbn [app] in Hnow.
+  destruct (inv_after_history _ _ _ _ _ R1) as [_ Hd]. subst nowi.
+  cbn [step] in R2.
+  destruct (prune_refines ci (time_of (firstn i ops)) HI) as (c2 & rep2 & evs & E & I2 & D2 & A & R).
+  rewrite E in R2. cbn [bind] in R2. inversion R2; subst c2 rep2 nowi'.
+  exists ci, ci', evs. rewrite Hd in A, R.
+  split; [exact R1|]. split; [exact E|]. split; [exact HI|]. split; [exact I2|]. split; [exact A|]. split; [exact R|].
+  split; [exact (prune_no_expired_left ci _ ci' rep HI E)|].
+  split; [|apply count_is_distinct_entries, I2].
+  rewrite <- Hd. exact (proj1 (prune_at_most_desired ci _ ci' rep HI E)).
+Qed.
+
+Theorem count_after_history desired ops c now outs :
+  run tb ops (with_desired_size desired) 0 = Ok (c, now, outs) -> card (abs_map c) (c_size c).
+Proof. intro H. apply count_is_distinct_entries. eapply inv_after_history, H. Qed.
+End Tie4.
+
+(* the tie-break used by the extracted driver is a legal one *)
+Lemma tb_first_ok : tie_ok tb_first.
+Proof.
+  intro l. split.
+  - intros x H. destruct l; [discriminate|]. inversion H; subst. left; reflexivity.
+  - intros Hne. destruct l; [congruence | discriminate].
+Qed.
+
+(* the numbers of expired and remaining records a prune reports do not depend on how
+   PriorityQueue::pop breaks ties among equal expiry instants *)
+Theorem expired_count_tie_independent tb1 tb2 c now c1 r1 c2 r2 :
+  tie_ok tb1 -> tie_ok tb2 -> Inv c ->
+  prune tb1 c now = Ok (c1, r1) -> prune tb2 c now = Ok (c2, r2) ->
+  pr_expired r1 = pr_expired r2 /\ pr_overflowed r1 = pr_overflowed r2.
+Proof.
+  intros T1 T2 HI H1 H2.
+  destruct (prune_refines tb1 T1 c now HI) as (c1' & r1' & ev1 & E1 & _ & _ & _ & R1).
+  destruct (prune_refines tb2 T2 c now HI) as (c2' & r2' & ev2 & E2 & _ & _ & _ & R2).
+  rewrite H1 in E1. rewrite H2 in E2. inversion E1; inversion E2; subst.
+  split.
+  - eapply card_unique; [exact (ro_expired _ _ _ _ _ _ R1) | exact (ro_expired _ _ _ _ _ _ R2)].
+  - pose proof (count_is_distinct_entries c HI) as C0.
+    rewrite (ro_overflowed _ _ _ _ _ _ R1 _ C0), (ro_overflowed _ _ _ _ _ _ R2 _ C0). reflexivity.
 Qed.
